@@ -69,12 +69,7 @@ fn gen_ts(r: &mut Rng, subsecond: bool) -> Timestamp {
 fn gen_sig(r: &mut Rng, g: &Gen, subsecond: bool) -> Signature {
     let mut name: String = (*r.pick(NAMES)).into();
     let mut email: String = (*r.pick(EMAILS)).into();
-    // F1b: the placeholder itself, rarely but deliberately
-    if r.chance(1, 150) { name = PLACEHOLDER.into(); }
-    if r.chance(1, 150) { email = PLACEHOLDER.into(); }
-    // whitespace at the ends (trimmed by gix on read), rarely but deliberately; rejected characters
-    if r.chance(1, 150) { name = (*r.pick(&[" lead", "trail ", "\ttab", "\u{a0}nbsp", "wide\u{3000}", " "])).into(); }
-    if r.chance(1, 150) { email = (*r.pick(&[" lead", "trail ", "cr\r", "\u{2003}em"])).into(); }
+    // (the placeholder itself and names with surrounding whitespace are *planted*, see `planted_known`)
     if g.hostile && r.chance(1, 4) { name = (*r.pick(&["a<b", "a>b", "a\nb", "<", "a\0b", "in ner"])).into(); }
     if g.hostile && r.chance(1, 4) { email = (*r.pick(&["a<b", "a>b", "a\nb", ">", "<>"])).into(); }
     let mut timestamp = gen_ts(r, subsecond);
@@ -103,8 +98,11 @@ fn gen_commit(r: &mut Rng, g: &Gen, pools: &Pools, prior: &[CommitId], salt: u64
             0 | 1 | 2 => Merge::resolved(String::new()),
             3 if g.hostile => Merge::from_vec((0..k + 2).map(|i| format!("l{i}")).collect::<Vec<_>>()), // arity mismatch
             4 if g.hostile => Merge::resolved("resolved but not empty".to_string()),
-            6 if r.chance(1, 8) => Merge::from_vec(vec![String::new(); k]), // all empty, unresolved (simple backend normalizes)
-            _ => Merge::from_vec((0..k).map(|_| (*r.pick(LABELS)).to_string()).collect::<Vec<_>>()),
+            _ => {
+                let mut ls: Vec<String> = (0..k).map(|_| (*r.pick(LABELS)).to_string()).collect();
+                if ls.iter().all(|l| l.is_empty()) { ls[0] = "side".into(); } // all-empty labels are planted, not random
+                Merge::from_vec(ls)
+            }
         };
         (trees, labels)
     } else {
@@ -220,6 +218,34 @@ fn classify_err(e: &str) -> String {
     else { format!("err:other:{}", e.chars().take(80).collect::<String>().replace([' ', '\n'], "_")) }
 }
 
+/// The three known findings are exercised rarely but deliberately: a fixed handful of planted
+/// commits at the *end* of each backend's run (so that at most ~10 of the 25 recorded oracle
+/// failures can be known ones and any new kind of failure is always recorded and reported).
+fn planted_known(r: &mut Rng, g: &Gen, pools: &Pools, salt0: u64, backend: &str) -> Vec<backend::Commit> {
+    let mut v = vec![];
+    let fresh = |r: &mut Rng, i: u64| {
+        let mut c = gen_commit(r, g, pools, &[], salt0 + i);
+        c.author.timestamp.timestamp = MillisSinceEpoch(c.author.timestamp.timestamp.0.div_euclid(1000) * 1000);
+        c
+    };
+    if backend == "git" {
+        let mut c = fresh(r, 0); c.author.name = PLACEHOLDER.into(); v.push(c);
+        let mut c = fresh(r, 1); c.committer.email = PLACEHOLDER.into(); v.push(c);
+        let mut c = fresh(r, 2); c.author.email = PLACEHOLDER.into(); c.committer.name = PLACEHOLDER.into(); v.push(c);
+        let mut c = fresh(r, 3); c.author.name = " lead".into(); c.committer.email = "trail ".into(); v.push(c);
+        let mut c = fresh(r, 4); c.committer.name = "\ttab\u{a0}".into(); c.author.email = "\u{2003}em\r".into(); v.push(c);
+        let mut c = fresh(r, 5); c.author.name = "wide\u{3000}".into(); c.committer.name = " ".into(); v.push(c);
+    } else {
+        for (i, k) in [3usize, 5, 3].into_iter().enumerate() {
+            let mut c = fresh(r, 6 + i as u64);
+            c.root_tree = Merge::from_vec((0..k).map(|_| r.pick(&pools.trees).clone()).collect::<Vec<_>>());
+            c.conflict_labels = Merge::from_vec(vec![String::new(); k]);
+            v.push(c);
+        }
+    }
+    v
+}
+
 struct IdBook { by_id: HashMap<Vec<u8>, String>, by_value: HashMap<String, Vec<u8>> }
 impl IdBook {
     fn check(&mut self, out: &mut Out, backend: &str, id: &CommitId, value_read: &backend::Commit) {
@@ -253,18 +279,21 @@ fn run_git(cfg: &Cfg, out: &mut Out, g0: &Gen) {
     let mut book = IdBook { by_id: HashMap::new(), by_value: HashMap::new() };
     let mut r = cfg.rng(171);
     let fix = if g0.subsecond_author { 1 } else { 0 };
-    let n = cfg.n(1400, 40_000);
-    for case in 0..n {
-        let hostile = case % 8 == 7;
+    let n = cfg.n(1000, 40_000);
+    let plain = Gen { subsecond_author: g0.subsecond_author, hostile: false };
+    let planted = planted_known(&mut r, &plain, &pools, (n + 1) * 4, "git");
+    for case in 0..n + planted.len() as u64 {
+        let planted_case = case.checked_sub(n).map(|i| planted[i as usize].clone());
+        let hostile = case % 8 == 7 && planted_case.is_none();
         let g = Gen { subsecond_author: g0.subsecond_author, hostile };
-        let k = r.range(1, 3);
+        let k = if planted_case.is_some() { 1 } else { r.range(1, 3) };
         let mut prior: Vec<CommitId> = vec![];
         let mut inputs: Vec<backend::Commit> = vec![];
         let mut results: Vec<Result<(CommitId, backend::Commit), String>> = vec![];
         for j in 0..k {
             // later writes: often a near-copy of an earlier one (same Git object, different extras ⇒ the
             // committer-timestamp adjustment loop), else a fresh commit possibly on top of the earlier ones
-            let c = if j > 0 && r.chance(1, 2) {
+            let c = if let Some(c) = &planted_case { c.clone() } else if j > 0 && r.chance(1, 2) {
                 let mut c = inputs[r.below(inputs.len())].clone();
                 match r.below(5) {
                     0 => c.predecessors.push(CommitId::new(vec![9; 20])),
@@ -290,7 +319,7 @@ fn run_git(cfg: &Cfg, out: &mut Out, g0: &Gen) {
         let mut ans: Vec<String> = vec![];
         for (j, (c, res)) in inputs.iter().zip(&results).enumerate() {
             req += &format!(" {}", show_commit(c, None));
-            out.tally("git.kind", if hostile { "hostile" } else { "plain" });
+            out.tally("git.kind", if planted_case.is_some() { "planted-known-finding" } else if hostile { "hostile" } else { "plain" });
             match res {
                 Err(e) => {
                     ans.push(if e.starts_with("panic") { "panic".to_string() } else { e.clone() });
@@ -351,11 +380,14 @@ fn run_simple(cfg: &Cfg, out: &mut Out) {
     let mut r = cfg.rng(172);
     let mut prior: Vec<CommitId> = vec![];
     let mut inputs: Vec<backend::Commit> = vec![];
-    for case in 0..cfg.n(2500, 60_000) {
-        let hostile = case % 8 == 7;
+    let n = cfg.n(2000, 60_000);
+    let planted = planted_known(&mut r, &Gen { subsecond_author: true, hostile: false }, &pools, 1000, "simple");
+    for case in 0..n + planted.len() as u64 {
+        let planted_case = case.checked_sub(n).map(|i| planted[i as usize].clone());
+        let hostile = case % 8 == 7 && planted_case.is_none();
         let g = Gen { subsecond_author: true, hostile };
         // salt only sometimes: exact duplicates and near-duplicates must occur
-        let c = if !inputs.is_empty() && r.chance(1, 5) {
+        let c = if let Some(c) = planted_case.clone() { c } else if !inputs.is_empty() && r.chance(1, 5) {
             let mut c = inputs[r.below(inputs.len())].clone();
             match r.below(6) {
                 0 => {}
@@ -367,7 +399,7 @@ fn run_simple(cfg: &Cfg, out: &mut Out) {
             }
             c
         } else { let salt = r.below(50) as u64; gen_commit(&mut r, &g, &pools, &prior, salt) };
-        out.tally("simple.kind", if hostile { "hostile" } else { "plain" });
+        out.tally("simple.kind", if planted_case.is_some() { "planted-known-finding" } else if hostile { "hostile" } else { "plain" });
         let req = format!("simple {}", show_commit(&c, None));
         let res = guard(|| store.write_commit(c.clone(), None).block_on());
         match res {
